@@ -67,7 +67,7 @@ token_specification = [
     ("LT", r"<"),
     ("GT", r">"),
     ("TILDE", r"\~"),
-    ("NAMESPACE", r"::"),
+    ("SCOPE", r"::"),
     ("COLON", r":"),
     ("VARARG", r"\.\.\."),
     ("ID", r"[A-Za-z_][A-Za-z0-9_]*"),  # Identifiers
@@ -422,7 +422,7 @@ class Parser(ExprParser):
         self.enter("nested_namespace")
         nested = [self.token.value]
         self.next()
-        while self.have("NAMESPACE"):
+        while self.have("SCOPE"):
             # make sure nested scope is a namespaceNode
             tok = self.mustbe("ID")
             name = tok.value
